@@ -96,6 +96,24 @@ NSTEER2 = """ - control-flow restructuring: guard clauses ↔ nested ifs, `switc
    ONE call site each… or inlining a trivial private helper; moving a declaration closer to its use; renaming a result or a receiver."""
 
 
+BSTEER3 = """ - well-meant FIXES that go wrong: an attempt to fix a data race, a goroutine leak, a double close, a lost error or a lock held too long (real or imagined) that
+   introduces a subtler problem — a check-then-act gap, an unlock on one path only, a channel that is now closed too early / too late / twice, a wait that can no longer be interrupted;
+ - new OPTIONS and FEATURES with a default that is supposed to keep the old behaviour but does not quite (a zero value that means something, an option consulted at the wrong
+   moment, a hook called under a lock or before the state it reports is true, a limit / batch size / timeout applied to the wrong unit);
+ - ERROR and SHUTDOWN paths: what happens to the message, the locks, the goroutines and the channels when a step in the middle fails, when Close / Stop / cancel arrives
+   during that step, or when the same call is made again after a failure;
+ - ORDER: two statements whose order matters (publish-then-ack, register-then-start, signal-then-wait, copy-then-modify) swapped or interleaved with a new statement;
+ - code MOVED between goroutines or between the caller and a callback (what runs under which lock, in which goroutine, before or after which signal)."""
+
+NSTEER3 = """ - declarations: renaming private fields, methods, types and constants; reordering struct fields or methods; grouping fields into an embedded private struct; turning
+   a `sync.Mutex` field into a `*sync.Mutex` allocated by the constructor (or the reverse) when every use goes through the field;
+ - signatures of PRIVATE functions: adding, dropping or reordering a parameter (all call sites adapted), returning a value instead of assigning a field in the callee,
+   a bool result turned into an error result that is nil / non-nil in exactly the same cases, a method turned into a function taking the receiver as its first argument;
+ - messages and constants: rewording a log or error text that nothing parses, replacing a repeated literal by a private constant, `errors.New` ↔ `fmt.Errorf` without verbs,
+   `errors.Wrap` ↔ `fmt.Errorf("…: %w", err)` where nothing inspects the error's type;
+ - locals: shadowing removed, a value computed once instead of twice (no side effects in between), `var x T` ↔ `x := T{}`, named results ↔ plain results when no defer reads them."""
+
+
 def main():
     ap = argparse.ArgumentParser()
     ap.add_argument("--steer", type=int, default=1)
@@ -127,7 +145,7 @@ def main():
         os.makedirs(out, exist_ok=True)
         if not os.path.exists(wt):
             subprocess.check_call(["git", "-C", "/repo", "worktree", "add", "--detach", "-q", wt, "HEAD"])
-        txt = HEAD.format(wt=wt, out=out, root=a.root, nb=a.breaking, nn=a.neutral, bsteer=BSTEER2 if a.steer == 2 else BSTEER, nsteer=NSTEER2 if a.steer == 2 else NSTEER)
+        txt = HEAD.format(wt=wt, out=out, root=a.root, nb=a.breaking, nn=a.neutral, bsteer={2: BSTEER2, 3: BSTEER3}.get(a.steer, BSTEER), nsteer={2: NSTEER2, 3: NSTEER3}.get(a.steer, NSTEER))
         for i in ids:
             p = props[i]
             txt += f"\n### Property {i} — {p['title']}\n\nStatement: {p['statement']}\n\nQuantified over: {p['quantifier']['text']}\n\n"
